@@ -23,6 +23,10 @@ CHECKS = {
             "Lean 4 round-trip theorem decodeLine (encodeLine r) = some r against an independent reference decoder, for all strings; differential correspondence (exact output string + two decoders) + independent oracle",
             "The whole-line round trip (name, tags, fields with string/non-string class, timestamp), the single-line clause, the tags/fields split, the timestamp floor and the JSON merge order are Lean theorems over all strings (every special character) and all record shapes; the encoder model is tied to format_line.py / format_json.py by exact comparison of the produced text on generated records and by decoding it with two independent decoders.",
             "Trusted: Lean kernel + standard axioms; model (sampling correspondence); CPython %s/%d rendering of numbers and booleans (assumed separator-free, checked on generated values); json module; integer record times."),
+    "C19": ("§6 C19",
+            "Lean 4 structural (mutual) induction over configuration trees for an arbitrary environment (resolve/apply are parameters) + differential correspondence on a synthetic importable package + independent recursive evaluator as oracle",
+            "Plain data unchanged, each __type__ node called exactly once in the documented bottom-up order with __args__/remaining items, and the error location being the path of the first failing node with exactly the earlier calls made are Lean theorems for every finite tree and every environment; the model is tied to mapping.py by translating generated trees with real importable factories on both sides.",
+            "Trusted: Lean kernel + standard axioms (this file uses none beyond propext/Quot.sound if any); model (sampling correspondence); import machinery enters as the parameter resolve and is exercised for real by the correspondence."),
 }
 
 PENDING_REASON = "check not built yet in this session (planned: Lean model + proof + correspondence, see DESIGN.md work order); not claimed until its check exists"
